@@ -34,7 +34,7 @@ COMPONENTS_STUB = ["set iteration order of Grammar symbol sets (OrderedSimSet); 
 ASSUMPTIONS = ["tree-depth mode, and expansion-depth mode on hierarchies without lists, tuples and unions (where the documentation defines it)", "minimum depth = depth of the shallowest derivable program; lists may be empty when their size refinement allows it",
                "productions of A = registered classes whose first base is A"]
 
-FEAT = features(list=2, annlist=2, union=2, tuple=2, nested=2, unreachable=2, standalone=2, cls=8, refined=2, plain=2, concrete_start=1, bool=2, nested_generic=1, self_ref=1, deep_chain=1, nested_list=1, weights=1, abstract_weights=1, future_annotations=1, inherited_ctor=1)
+FEAT = features(list=2, annlist=2, union=2, tuple=2, nested=2, unreachable=2, standalone=2, cls=8, refined=2, plain=2, concrete_start=1, bool=2, nested_generic=1, self_ref=1, deep_chain=1, nested_list=1, weights=1, abstract_weights=1, future_annotations=1, inherited_ctor=1, same_name=1)
 
 
 def budget(tier):
